@@ -70,6 +70,11 @@ def cases():
     add("UPPER(v:a) extracts the string (->>)", "json_extract_cased_as_varchar",
         mk(lambda o: node("Upper", "stmt", this=node("JSONExtract", this=op(o, "x"), expression=op(o, "path", jpath())))),
         lambda o, i: P("Upper", this=P("JSONExtractScalar", this=IS(o["x"]), expression=IS(o["path"]))), "case conversion turns a VARIANT string into text without JSON quotes")
+    for fcls in ("Max", "ArrayAgg", "Coalesce", "ArraySize"):
+        add(f"{fcls}(v:a) keeps the VARIANT extraction (->)", "json_extract_cased_as_varchar",
+            mk(lambda o, fcls=fcls: node(fcls, "stmt", this=node("JSONExtract", this=op(o, "x"), expression=jpath()))), UNCHANGED,
+            "only a conversion to text unquotes: an aggregate / conditional / array function over v:a still receives the VARIANT "
+            "(numbers stay numbers, strings keep their JSON quotes)")
     add("v:a is parenthesised", "json_extract_precedence", mk(lambda o: node("JSONExtract", "stmt", this=op(o, "x"), expression=jpath())),
         lambda o, i: P("Paren", this=IS(i)), "DuckDB's -> binds looser than comparison operators")
     add("v:a::x extraction (->>) is parenthesised too", "json_extract_precedence", mk(lambda o: node("JSONExtractScalar", "stmt", this=op(o, "x"), expression=jpath())),
